@@ -444,3 +444,11 @@ reg("C01", [
       "at most the message length (no pre-allocation proportional to the record's offset or to header counts)",
       ["Packet::parse", "TXT::parse", "NSEC::parse", "SVCB::parse"], params={'alloc_only': True}),
 ], [])
+
+# translator validation (decides no property; guards the engine): hosted by the properties whose obligations are engine M only
+for _p in ("C02", "C10", "C11"):
+    reg(_p, [M(_p, "translator", "translator_val",
+               "90 concrete cases: the repository's 30 sample records + 2 truncations each, interpreted by mirsym and executed natively "
+               "(accept/reject/panic, cursor, type code, len(), TTL, re-serialised bytes must agree)",
+               ["<ResourceRecord as WireFormat>::{parse,write_to,len}", "RData::type_code", "u16::from(TYPE)"])],
+        ["translator validation decides no property: a mismatch makes the check INCONCLUSIVE (engine defect), never a violation"])
